@@ -140,7 +140,8 @@ def check_consume_all(out, facts, trait, method, inner_mode):
         out.fail('R14.2', key, 'expected exactly one blanket impl, found %d (anchor missing)' % len(fl), '-')
         return
     f = fl[0]
-    t, v, ev = wire.infer_decoder_fn(facts, f)
+    rl = {0: ('input',)} if method == 'decode_all' else {0: ('param', 'limit', 'u32'), 1: ('input',)}
+    t, v, ev = wire.infer_decoder_fn(facts, f, roles=rl)
     ops = sym.has_opaque(t)
     if ops:
         out.fail('R14.2', key, 'unrecognised construct: ' + ops[0][1], ops[0][2])
